@@ -1,3 +1,4 @@
 import Model.Layout
 import Model.Paginate
 import Model.PaginateSpec
+import Model.Widths
